@@ -387,3 +387,30 @@ pub async fn run_tcp_server(ctx: Arc<FrontendContext>) -> anyhow::Result<()> {
     info!("TCP server shutdown complete");
     Ok(())
 }
+
+/// Verification hook: public wrapper around the crate-private TCP authentication gate.
+#[cfg(sneldb_verif)]
+pub mod verif_gate {
+    use super::{AuthManager, TcpAuthState};
+    use std::sync::Arc;
+
+    pub struct Gate(TcpAuthState);
+
+    impl Gate {
+        pub fn new(auth_manager: Option<Arc<AuthManager>>, client_ip: String) -> Self {
+            Gate(TcpAuthState::new(auth_manager, client_ip))
+        }
+
+        /// Exactly `check_auth` as the TCP listener calls it.
+        pub async fn check<'a>(
+            &mut self,
+            input: &'a str,
+        ) -> Option<(&'a str, bool, Option<String>, Option<String>)> {
+            super::check_auth(input, &mut self.0).await
+        }
+
+        pub fn connection_user(&self) -> Option<String> {
+            self.0.user_id().map(|s| s.to_string())
+        }
+    }
+}
